@@ -77,7 +77,10 @@ def compile_probe(ext, scratch, pid, source, externs=("epserde",), run=False, ti
             res["errors"] = ["uncoded"]
     if res["compiled"] and run:
         try:
-            r = subprocess.run([out], capture_output=True, text=True, timeout=timeout, env=ENV, cwd=scratch)
+            def lim():
+                import resource
+                resource.setrlimit(resource.RLIMIT_AS, (12 << 30, 12 << 30))
+            r = subprocess.run([out], capture_output=True, text=True, timeout=timeout, env=ENV, cwd=scratch, preexec_fn=lim)
             res.update(ran=True, exit=r.returncode, stdout=r.stdout[-200000:], run_stderr=r.stderr[-2000:])
         except subprocess.TimeoutExpired:
             res.update(ran=True, exit=-999, stdout="", run_stderr="timeout")
